@@ -12,18 +12,26 @@ WALKS = [
 ]
 
 
-def generate(ctx, per=3, extra=None, hist=False):
-    """GEN: the table run + the random walks (three TLC processes); returns the batched scripts as [{sid, steps}]"""
+def generate(ctx, per=3, extra=None, design=True):
+    """GEN (three TLC processes at a time): design-level checks, the table run, the random walks;
+    returns the batched scripts as [{sid, steps}]"""
     only = os.environ.get("VERIF_CYR_FAMS")
-    jobs = [("table", gen_cfg(tier="quick" if ctx.quick else "thorough", inv="NoLaw"), None, 6)]
+    jobs = []
+    if design:
+        # self-test: with the multi-label deviation the all-labels law of the statement fails on the design
+        jobs.append(("kf-witness", gen_cfg("scanL", maxn=1, labels=ALL4, p="none", dev='{"KF_C01_MultiLabelUnion"}', emit=""), None, 2, True))
+        # laws of the reference semantics itself (well-formed tables, all-labels law, count(*) law) over every family
+        jobs.append(("laws-nodes", gen_cfg("all", maxn=2, maxr=0, labels=ALL4, p="none", emit=""), None, 2, False))
+        jobs.append(("laws-rels", gen_cfg("all", maxn=2, maxr=1, labels=L_NONE, p="one", types=T1, emit="", askat=3), None, 2, False))
+    jobs.append(("table", gen_cfg(tier="quick" if ctx.quick else "thorough", inv="NoLaw"), None, 4, False))
     for w in WALKS:
         kw = {k: v for k, v in w.items() if k not in ("name", "quick", "thorough")}
         jobs.append((w["name"], gen_cfg(sim=True, view="", emit="", inv="SimEmit", **kw),
-                     (w["quick"] if ctx.quick else w["thorough"], w["maxh"] + 2), 2))
+                     (w["quick"] if ctx.quick else w["thorough"], w["maxh"] + 2), 2, False))
 
     def one(job):
-        name, cfg, sim, workers = job
-        return name, ctx.tlc_gen("MC_CypherRead", cfg, "gen-" + name, workers=workers, timeout=3000, simulate=sim)
+        name, cfg, sim, workers, expect = job
+        return name, ctx.tlc_gen("MC_CypherRead", cfg, "gen-" + name, workers=workers, timeout=3000, simulate=sim, expect_violation=expect)
 
     with cf.ThreadPoolExecutor(max_workers=3) as ex:
         res = list(ex.map(one, jobs))
@@ -38,13 +46,26 @@ def generate(ctx, per=3, extra=None, hist=False):
     return out
 
 
-def design_checks(ctx):
-    # self-test: with the multi-label deviation the all-labels law of the statement fails on the design
-    ctx.tlc_gen("MC_CypherRead", gen_cfg("scanL", maxn=1, labels=ALL4, p="none", dev='{"KF_C01_MultiLabelUnion"}', emit=""),
-                "kf-witness", expect_violation=True, workers=2)
-    # laws of the reference semantics itself (well-formed tables, all-labels law, count(*) law) over every family
-    ctx.tlc_gen("MC_CypherRead", gen_cfg("all", maxn=2, maxr=1, labels=ALL4, p="one", types=T1, emit="", askat=3 if ctx.quick else 1),
-                "laws", workers=6, timeout=3000)
+def replay(ctx, scripts, mode, name="reads", shards=4, args=()):
+    """RUN: the harness over `shards` slices of the scripts in parallel processes; returns the concatenated trace"""
+    parts = [scripts[i::shards] for i in range(shards)]
+    paths = [ctx.write_scripts("%s.%d" % (name, i), p, wrap=False) for i, p in enumerate(parts) if p]
+
+    def one(i):
+        return ctx.run_harness("cyread", paths[i], name="%s.%d" % (name, i), args=["mode=" + mode] + list(args))
+
+    ctx.build_harness("cyread")
+    with cf.ThreadPoolExecutor(max_workers=shards) as ex:
+        traces = list(ex.map(one, range(len(paths))))
+    out = ctx.path(name + ".trace.ndjson")
+    with open(out, "w") as f:
+        for t in traces:
+            for ln in open(t):
+                if ln.startswith('{"ev":"reset","sid":"end"}'):
+                    continue
+                f.write(ln)
+        f.write('{"ev":"reset","sid":"end"}\n')
+    return out
 
 
 ASSUME = (
@@ -61,11 +82,9 @@ ASSUME = (
 
 
 def run(ctx):
-    design_checks(ctx)
     scripts = generate(ctx)
     ctx.assume(*ASSUME)
-    sp = ctx.write_scripts("reads", scripts, wrap=False)
-    tr = ctx.run_harness("cyread", sp, name="reads", args=["mode=c01"])
+    tr = replay(ctx, scripts, "c01")
     n, ok, err = count_cases(tr)
     stats = {}
     shape_stats(tr, stats)
